@@ -97,8 +97,15 @@ claim("C10",
       "every request, incl. ones crossing extent boundaries and the tail over-read, equals the concatenation.",
       TRUST, "z3 regex language inclusion on the real pattern + symbolic execution of the assembly code", "4.10")
 
+claim(,
+      "The real VisorTarInfo.frombuf/_proc_member and the stdlib's TarFile.next/_proc_member/_block run on archives of up to 3 "
+      "members whose sizes, visor flag bytes and visor offset fields are symbolic; on every path z3 shows each member's header "
+      "position, data offset and size equal the vmtar layout (visor members with a data offset do not skip inline data, all "
+      "others skip the padded size) and that exactly the declared members are listed; witnesses are replayed on real tar bytes.",
+      TRUST, "symbolic execution of vmtar.py with the stdlib tar iterator + z3", "4.20")
+
 PENDING = "check not built yet in this round (planned: see DESIGN.md section 4)"
-for _p in ( "C09", "C11", "C14", "C15", "C17", "C20"):
+for _p in ("C09", "C11", "C14", "C15", "C17"):
     NOT_APPLICABLE[_p] = PENDING
 NOT_APPLICABLE["C16"] = ("the property's content (cstruct writers, AES-GCM, PBKDF2) sits behind C boundaries that would have "
                          "to be stubbed; nothing of the repository's own arithmetic would remain to be decided (DESIGN 5)")
